@@ -18,8 +18,13 @@ def short(meta):
                 txt = line
                 break
     needs = meta.get("needs") or ""
+    notes = meta.get("notes", "")
     if not needs:
-        m = re.search(r"(?is)need(?:ed|s)[^\n:]*:\**\s*(.+?)(?:\n\s*\n|\n\*|\n-|\Z)", meta.get("notes", ""))
+        m = re.search(r"(?im)^#+[^\n]*(?:need|manifest|trigger)[^\n]*\n+(.+?)(?:\n\s*\n|\n#|\Z)", notes, re.S)
+        if m:
+            needs = " ".join(m.group(1).split())
+    if not needs:
+        m = re.search(r"(?is)need(?:ed|s)[^\n:]*:\**\s*(.+?)(?:\n\s*\n|\n\*|\n-|\Z)", notes)
         if m:
             needs = " ".join(m.group(1).split())
     txt = " ".join(txt.split())
